@@ -67,6 +67,7 @@ package server
 //@   loop 4 invariant forall f bgp.Family :: has(remote, f) ==> pre(has(remote, f)) || f == family
 //@   loop 5 invariant forall f bgp.Family :: has(remote, f) ==> pre(has(remote, f)) || f == family
 //@ func (*fsm).stateChange
+//@   tag C08 C12
 //@   claims at-call
 //@   at-call fsm.gConf.IsConfederationMember( requires conf.Timers.State.NegotiatedHoldTime == (float64(body.HoldTime) > conf.Timers.Config.HoldTime ? conf.Timers.Config.HoldTime : float64(body.HoldTime))
 //@   at-call fsm.gConf.IsConfederationMember( requires conf.Timers.State.KeepaliveInterval == (conf.Timers.State.NegotiatedHoldTime < conf.Timers.Config.HoldTime ? conf.Timers.State.NegotiatedHoldTime / 3 : conf.Timers.Config.KeepaliveInterval)
@@ -79,6 +80,10 @@ package server
 // from C08: "messages above 4096 octets only if the peer announced Extended Message": the session's flag is set
 // exactly when the peer's capability list has the capability (also when an earlier session on this neighbour had it)
 //@   at-call fsm.gConf.IsConfederationMember( requires (fsm.extendedMessage.v != 0) <==> has(fsm.capMap, bgp.BGP_CAP_EXTENDED_MESSAGE)
+// from C08 / C12 "negotiated as the intersection of both OPEN messages" - of THIS session: graceful restart (and its
+// long-lived variant, and the N bit) is in force only if the OPEN just received carries the capability; what an
+// earlier session on this neighbour negotiated does not carry over
+//@   at-call fsm.gConf.IsConfederationMember( requires (conf.GracefulRestart.State.Enabled ==> conf.GracefulRestart.Config.Enabled && ok) && (conf.GracefulRestart.State.NotificationEnabled ==> ok) && (conf.GracefulRestart.State.LongLivedEnabled ==> ok && ok2)
 
 // from C08: "the OPEN sent reflects the configuration (AS_TRANS for 4-octet local AS)"
 //@ func buildopen
